@@ -304,3 +304,4 @@ pub mod unstable_net_report {
 
 #[cfg(any(test, feature = "test-utils"))]
 pub mod test_utils;
+#[cfg(iroh_verif)] pub mod verif_hooks_netrep;
